@@ -22,7 +22,7 @@ ASSUMPTIONS = [
 FUZZ = {"quick": {"runs": 1500, "campaigns": [("empty", 0), ("seeded", 1)]},
         "thorough": {"runs": 40000, "campaigns": [("empty", 0), ("empty", 1)] + [("seeded", 2 + i) for i in range(6)]}}
 BUDGET = {"quick": (4, 400), "thorough": (16, 5000)}
-TECHNIQUE = "property-based testing (Hypothesis @given) against mpmath reference log-densities and their numerically exact derivatives"
+TECHNIQUE = "property-based testing (Hypothesis @given) against mpmath reference log-densities and their numerically exact derivatives; plus coverage-guided fuzzing (atheris/libFuzzer through fuzz_one_input) with the same oracle"
 LEVEL_TEXT = ("Exploration: thousands of generated (class, shape, spread form, data) cases compared with closed-form references; "
               "right level for pure array kernels whose bugs are shape/broadcast/sign slips.")
 LEVEL_NOTE = "Trusts mpmath loggamma/diff at 30 digits."
